@@ -70,6 +70,10 @@ if crashes:
         # the same input as a replay file of the generated tier (`vcheck replay <file>`)
         if target == "c11_decode":
             case = {"property": prop, "check": "fuzz", "bytes": data.hex(), "kind": "libfuzzer"}
+        elif target == "c05_parse":
+            case = {"property": prop, "check": "fuzz", "entry": "parse", "text_hex": data.hex()}
+        elif target == "c15_spans":
+            case = {"property": prop, "check": "fuzz", "text": data.decode("utf-8", "replace"), "checked": False}
         else:
             case = {"property": prop, "check": "agreement", "text": data.decode("utf-8", "replace")}
         dst = os.path.join(V, "replays", prop, "viol_fuzz_" + os.path.basename(c)[:22] + ".json")
